@@ -50,7 +50,8 @@ def replay_seeds(ctx, prop, run_rules):
         props = [meta.get("property")] + list(meta.get("also_breaks", []))
         if prop in props and prop in meta.get("detected_by", props):
             seeds.append((os.path.dirname(meta_path), meta))
-    for sdir, meta in seeds:
+    def one(item):
+        sdir, meta = item
         patch = os.path.join(sdir, "patch.diff")
         scratch = tempfile.mkdtemp(prefix="smseed-")
         entry = {"seed": os.path.basename(sdir), "what": meta.get("what", "")[:160]}
@@ -59,14 +60,16 @@ def replay_seeds(ctx, prop, run_rules):
             r = subprocess.run(["patch", "-p1", "-s", "-f", "-d", scratch, "-i", patch], stdout=subprocess.PIPE, stderr=subprocess.STDOUT, text=True)
             if r.returncode != 0:
                 entry["status"] = "skipped (patch does not apply to the current tree)"
-                res.append(entry)
-                continue
+                return entry
+            wid = slots.get()
             try:
-                fpath, th, _ = extract.facts_path("ram", repo=scratch)
+                # one cache (with its warm cargo target directory) per worker: the extractions run side by side
+                fpath, th, _ = extract.facts_path("ram", repo=scratch, cache=os.path.join(extract.CACHE, "seedw%d" % wid))
             except extract.ExtractError as e:
                 entry["status"] = "skipped (variant does not compile: %s)" % str(e)[:120]
-                res.append(entry)
-                continue
+                return entry
+            finally:
+                slots.put(wid)
             c2 = run_rules(prop, Facts(fpath), "quick")
             fired = [o for o in c2.obligations if o["status"] != "held"]
             entry["status"] = "fired" if fired else "SILENT (checker regression)"
@@ -78,7 +81,16 @@ def replay_seeds(ctx, prop, run_rules):
                 pass
         finally:
             shutil.rmtree(scratch, ignore_errors=True)
-        res.append(entry)
+        return entry
+
+    from concurrent.futures import ThreadPoolExecutor
+    import queue as _queue
+    workers = max(1, min(6, (os.cpu_count() or 2) // 2))
+    slots = _queue.Queue()
+    for k in range(workers):
+        slots.put(k)
+    with ThreadPoolExecutor(max_workers=workers) as ex:
+        res = list(ex.map(one, seeds))
     silent = [e for e in res if e["status"].startswith("SILENT")]
     for e in silent:
         print("SELFTEST-REGRESSION: property=%s seed=%s stayed silent" % (prop, e["seed"]))
